@@ -8,11 +8,11 @@ import (
 )
 
 func Error(c codes.Code, msg string) error {
-	return extgrpc.WrapWithGrpcCode(errors.New(msg), c)
+	return extgrpc.WrapWithGrpcCode(errors.NewWithDepth(1, msg), c)
 }
 
 func Errorf(c codes.Code, format string, args ...interface{}) error {
-	return extgrpc.WrapWithGrpcCode(errors.Newf(format, args...), c)
+	return extgrpc.WrapWithGrpcCode(errors.NewWithDepthf(1, format, args...), c)
 }
 
 func WrapErr(c codes.Code, msg string, err error) error {
